@@ -330,6 +330,8 @@ fn sched_cases() -> Vec<SCase> {
         c("async-flusher-file/shutdown", ModeK::Async(1, 16, 1), OutK::File, 2, Term::Shutdown, false, 2, false),
         c("buffered-flusher-file/shutdown", ModeK::BufFlush(CAP, 1), OutK::File, 3, Term::Shutdown, false, 2, false),
         c("buffered-flusher-file/drop", ModeK::BufFlush(CAP, 1), OutK::File, 3, Term::DropLast, false, 2, false),
+        c("flw-direct/buffered+file-flusher/drop", ModeK::BufFlush(CAP, 1), OutK::File, 3, Term::DropLast, false, 2, false),
+        c("flw-direct/async+async-flusher/shutdown", ModeK::Async(1, 16, 1), OutK::File, 2, Term::Shutdown, false, 2, false),
         c("async-file/two-shutdowns", ModeK::Async(1, 16, 0), OutK::File, 2, Term::Shutdown, true, 0, true),
         c("async-stdout/two-shutdowns", ModeK::Async(1, 16, 0), OutK::Stdout, 2, Term::Shutdown, true, 0, true),
     ]
@@ -347,7 +349,43 @@ fn sched_cfg(sc: &SCase) -> SchedCfg {
 
 type SObs = Result<(), (String, String)>;
 
+/// FileLogWriter used directly (not through a Logger): here the file writer's own flusher thread
+/// (`flexi_logger-file_flusher`) exists; the terminal operation is the drop of the writer.
+fn flw_direct_body(sc: SCase) -> Arc<dyn Fn(&Arc<Sched>) -> SObs + Send + Sync> {
+    use flexi_logger::writers::LogWriter;
+    Arc::new(move |_s: &Arc<Sched>| {
+        let env = Env::in_current("c04f");
+        let mut cfg = Cfg::norot();
+        cfg.mode = sc.mode;
+        let flw = cfg.flw_builder(&env.dir).try_build().map_err(|e| ("build-error".to_string(), e.to_string()))?;
+        let mut accepted: Vec<u8> = Vec::new();
+        for i in 0..sc.writes {
+            let msg = lg::payload(0, i, if i == 1 { CAP + 4 } else { 6 });
+            accepted.extend(msg.as_bytes());
+            accepted.push(b'\n');
+            flw.write(
+                &mut flexi_logger::DeferredNow::new(),
+                &log::Record::builder().args(format_args!("{msg}")).level(log::Level::Info).target("t").build(),
+            )
+            .map_err(|e| ("write-error".to_string(), e.to_string()))?;
+        }
+        match sc.term {
+            Term::Shutdown => flw.shutdown(),
+            Term::DropLast => {}
+        }
+        drop(flw);
+        let got = std::fs::read(env.dir.join("app.log")).unwrap_or_default();
+        if got != accepted {
+            return Err(("missing-after-drop".to_string(), format!("FileLogWriter dropped: the file holds {:?}, written were {:?}", String::from_utf8_lossy(&got), String::from_utf8_lossy(&accepted))));
+        }
+        Ok(())
+    })
+}
+
 fn sched_body(sc: SCase) -> Arc<dyn Fn(&Arc<Sched>) -> SObs + Send + Sync> {
+    if sc.name.starts_with("flw-direct") {
+        return flw_direct_body(sc);
+    }
     Arc::new(move |s: &Arc<Sched>| {
         let (w, logger, handle) = build(sc.mode, sc.out, true).map_err(|e| ("build-error".to_string(), e))?;
         let w = Arc::new(w);
